@@ -501,3 +501,26 @@ func (a *Adapter) Project(ctx sdk.Context) any {
 		"obsDep": e.ObsDep, "obsOut": e.ObsOut, "extIn": e.ExtIn, "extOut": e.ExtOut,
 	}
 }
+
+// WithinBounds keeps the recorder inside the projection's tables (ids up to MaxTx/MaxBatch/MaxCall, events up to MaxEv).
+func (a *Adapter) WithinBounds(ctx sdk.Context, op graph.Op) bool {
+	st := ctx.KVStore(a.storeKey)
+	next := func(key []byte) int64 {
+		if n := seq(st, key); n > 0 {
+			return n
+		}
+		return 1
+	}
+	switch op.Name() {
+	case "Send":
+		return next(types.KeyLastTxPoolID) <= int64(a.C.MaxTx)
+	case "RequestBatch":
+		return next(types.KeyLastOutgoingBatchID) <= int64(a.C.MaxBatch)
+	case "BridgeCall":
+		return next(types.KeyLastBridgeCallID) <= int64(a.C.MaxCall)
+	case "ExtDeposit", "ExtExecBatch", "ExtExecCall":
+		e := a.getEnv(ctx)
+		return int(seq(st, types.LastObservedEventNonceKey))+len(e.Queue) < a.C.MaxEv
+	}
+	return true
+}
